@@ -20,7 +20,11 @@ ensure_writable dominates every raw write / fsync; write_indeterminate is only s
 error reaches force_flush's caller and flush_all. Not decided: the recovered state after a given fault sequence.
 """
 DECIDED = ["a scrubbed run is released with the sum of its members' own extent lengths", "no discarded storage error", "failure arms reach scrub / quarantine / poison and requeue all entries",
-           "poisoned device is unwritable", "errors propagate to flush()"]
+           "poisoned device is unwritable", "errors propagate to flush()",
+           'two-slot journal position: every journal writer records its slot; position advances only after write + fsync (shared with C04.position)',
+           'every prepared write of a failed batch is requeued (whole drain, whole clean-up)',
+           'the retirement gate walks through a superseded never-written generation (shared with C02.successor)',
+           'metadata commit order']
 NOT_DECIDED = ["the recovered state after a given fault sequence", "that a later flush succeeds once the device works again"]
 ASSUMPTIONS = ["ShuttingDown is the only error add_write/add_replacement can return (FIELDW on WriteBuffer.shutdown in C01)"]
 
